@@ -64,8 +64,8 @@ Class MatchOps := {
   ckeys : clause -> option (list name);            (* Some ks: IsPatternUnique() / IsPatternListOfUniqueValues(): the
                                                       (unescaped, non-empty) names the clause can match; None: wildcards *)
   cstar : clause;                                  (* the clause "*" *)
-  filter : Type;                                   (* a QueryFilter *)
-  fmatch : filter -> payload -> bool               (* QueryFilter::Matches on the node's Message *)
+  qfilter : Type;                                  (* a QueryFilter *)
+  fmatch : qfilter -> payload -> bool               (* QueryFilter::Matches on the node's Message *)
 }.
 
 Section Pat.
@@ -91,7 +91,7 @@ Fixpoint pat_matches (pt : pat) (p : path) : bool :=
 (* DEFAULT_PATH_PREFIX "*/*" is prepended to a path string that has no leading '/' (PathMatcher::AdjustStringPrefix) *)
 Definition default_prefix : pat := [cstar; cstar].
 
-Definition filter_ok (f : option filter) (d : option payload) : bool :=   (* PathMatcherEntry::FilterMatches *)
+Definition filter_ok (f : option qfilter) (d : option payload) : bool :=   (* PathMatcherEntry::FilterMatches *)
   match f, d with
   | Some f', Some d' => fmatch f' d'
   | _, _ => true
